@@ -103,7 +103,7 @@ static Reg r_c16coalesce("c16coalesce", [](std::vector<std::string> const& a) ->
     page.coalesceContentStreams();
     auto c = page.getKey("/Contents");
     if (!c.isStream()) return "notstream";
-    auto p = c.getStreamData(qpdf_dl_none);
+    auto p = c.getStreamData(qpdf_dl_generalized);
     return hex(std::string(reinterpret_cast<char const*>(p->getBuffer()), p->getSize()));
 });
 
